@@ -281,4 +281,17 @@ theorem claim_hex_inj (q : Nat) (a b : List Nat) (ha8 : a.length = 8) (hb8 : b.l
 
 end ClaimHex
 
+/-- the proof types by name, through the table the source's switch is compared with: the two the dispatcher verifies, every other
+    name is a type it does not support -/
+theorem kindOfName_spec (n : String) :
+    kindOfName n = if n = "BJJSignature2021" then .bjj else if n = "Iden3SparseMerkleTreeProof" then .smt else .other n := by
+  unfold kindOfName proofTypeTable
+  by_cases h1 : n = "BJJSignature2021"
+  · subst h1; rfl
+  · by_cases h2 : n = "Iden3SparseMerkleTreeProof"
+    · subst h2; rfl
+    · have e1 : ("BJJSignature2021" == n) = false := by simpa using fun h => h1 h.symm
+      have e2 : ("Iden3SparseMerkleTreeProof" == n) = false := by simpa using fun h => h2 h.symm
+      simp [List.find?, e1, e2, h1, h2]
+
 end Gsp.Props.C06
